@@ -136,7 +136,7 @@ WANT_SAMEDEC = True
 def run(ctx):
     rng = ctx.rng.fork("C17")
     q = ctx.quick
-    n = 400 if q else 6000
+    n = 400 if q else 20000
     rates = [8000, 8001, 11025, 16000, 22050, 44100, 48000, 96000, 192000]
     cases = []
     for i in range(n):
@@ -170,7 +170,7 @@ def run(ctx):
                           % (cases[i][0], cases[i][1][:80], mo[:100], im[:100]), {"input": "cfgcalls %d %s" % cases[i], "coq_sizes": s})
     # run a sample of the configurations on audio
     runlines = []
-    for (rate, calls) in cases[:: max(1, len(cases) // (40 if q else 400))]:
+    for (rate, calls) in cases[:: max(1, len(cases) // (40 if q else 1200))]:
         kv = []
         for c in calls.split(";"):
             a = c.split(":")
@@ -200,7 +200,7 @@ def run(ctx):
                           {"input": l})
         else:
             run_ok += 1
-    tried, sok = samedec_options(ctx, rng, 10 if q else 10)
+    tried, sok = samedec_options(ctx, rng, 10 if q else 60)
     ctx.coverage.update({
         "evaluations": len(cases) + len(runlines) + tried,
         "distinct_nontrivial": len(set(c for c in cases if c[1] != "-")),
